@@ -230,6 +230,7 @@ bool replayExplicit(Tape &t, Report &R) {
 
 bool prop(Tape &t, Report &R) {
   if (!t.w.empty() && t.w[0] == kExplicit) return replayExplicit(t, R);
+  HistoryScope hist(t, R);
   GenOpts o;
   if (R.thorough()) o.maxCells = 50, o.maxLevels = 12;
   CircuitSpec s = genCircuit(t, o);
